@@ -16,6 +16,14 @@ from .compound_amount import CompoundAmount
 from .cost import UnitCost, TotalCost
 
 
+def _check_free(value: Optional[NumberExpr]) -> None:
+    """Refuses a number that still lives inside another tree, before the cost is re-shaped."""
+    if value is not None and (
+            value.first_token is not value.token_store.get_first() or
+            value.last_token is not value.token_store.get_last()):
+        raise ValueError('Cannot reuse node. Consider making a copy.')
+
+
 @internal.tree_model
 class CostSpec(cost_spec.CostSpec):
     
@@ -43,6 +51,7 @@ class CostSpec(cost_spec.CostSpec):
 
     @raw_number_per.setter
     def __raw_number_per(self, value: Optional[NumberExpr]) -> None:
+        _check_free(value)
         if compound_amount := self.raw_compound_amount_comp:  # CompoundAmount
             compound_amount.raw_number_per = value
         elif isinstance(self.raw_cost, UnitCost):
@@ -89,6 +98,7 @@ class CostSpec(cost_spec.CostSpec):
 
     @raw_number_total.setter
     def __raw_number_total(self, value: Optional[NumberExpr]) -> None:
+        _check_free(value)
         if compound_amount := self.raw_compound_amount_comp:  # CompoundAmount
             compound_amount.raw_number_total = value
         elif isinstance(self.raw_cost, TotalCost):
